@@ -732,8 +732,9 @@ Definition oracle_read (c : N * N * list N * list N * list ievent * bool) : bool
 Definition oracle_known (code : N) (c : N * N * list N * list N * list ievent * bool) : bool :=
   let '(max_frame, _, bs, _, _, _) := c in
   negb (existsb (fun fr => match deviation_of fr with
-                           | DevPushPromiseEmptyFragment => code =? 1
-                           | DevGoAwayStreamId => code =? 2
-                           | DevResetStreamZero => code =? 3
-                           | _ => false
+                           | DevPushPromiseEmptyFragment => (code =? 1) || (code =? 0)
+                           | DevGoAwayStreamId => (code =? 2) || (code =? 0)
+                           | DevResetStreamZero => (code =? 3) || (code =? 0)
+                           | DevContinuationStreamZero => false
+                           | DevNone => false
                            end) (stream_frames (S (length bs)) max_frame bs)).
